@@ -447,7 +447,6 @@ func (ms *Modules) Process() []error {
 	// the errors.
 	for _, m := range mods {
 		ToEntry(m).Augment(true)
-		errs = append(errs, ToEntry(m).GetErrors()...)
 	}
 
 	// An augment that was applied only now (its path leads through one of
@@ -458,6 +457,17 @@ func (ms *Modules) Process() []error {
 	}
 	for _, m := range ms.SubModules {
 		ToEntry(m).FixChoice()
+	}
+
+	// Augmentation records errors on the entries it touches (duplicate
+	// nodes, what was wrong inside the augment), in any module.  Collect
+	// them before the deviations are applied: a deviation may remove the
+	// node that carries them.
+	for _, m := range ms.Modules {
+		errs = append(errs, ToEntry(m).GetErrors()...)
+	}
+	for _, m := range ms.SubModules {
+		errs = append(errs, ToEntry(m).GetErrors()...)
 	}
 
 	// The deviation statement is only valid under a module or submodule,
